@@ -91,6 +91,33 @@ fn check_case(case: &Value) -> Option<Value> {
             }
         }
     }
+    // 3b. the index before the reference, a window of two, three rolls: every roll must find the archives where the
+    // expansion puts them (an expansion may contain "/", i.e. put the index into a directory component)
+    if !input.contains("{}") {
+        let s = Scratch::new("env");
+        let pattern = format!("{}/out/b-{{}}-{}.log", s.path().display(), input);
+        let active = s.path().join("active.log");
+        let r = catch(|| -> anyhow::Result<()> {
+            let roller = FixedWindowRoller::builder().build(&pattern, 2)?;
+            for k in 1..=3 {
+                std::fs::write(&active, format!("data{}", k))?;
+                roller.roll(&active)?;
+            }
+            Ok(())
+        });
+        match r {
+            Err(pn) => return Some(json!({"site": "FixedWindowRoller (window of 2)", "what": "panic", "error": pn})),
+            Ok(Err(e)) => return Some(json!({"site": "FixedWindowRoller (window of 2)", "what": "roll failed", "error": e.to_string()})),
+            Ok(Ok(())) => {
+                let got: Vec<(String, String)> = snapshot(s.path(), false, false).into_iter().map(|(k, v)| (k, String::from_utf8_lossy(&v).to_string())).collect();
+                let mut want = vec![(format!("out/b-0-{}.log", expect), "data3".to_string()), (format!("out/b-1-{}.log", expect), "data2".to_string())];
+                want.sort();
+                if got != want {
+                    return Some(json!({"site": "FixedWindowRoller (window of 2)", "what": "archives after three rolls", "expected": want, "actual": got}));
+                }
+            }
+        }
+    }
     None
 }
 
